@@ -184,6 +184,36 @@ func c07Shape(s *source, e *emitter, rel, goName, leanName string) {
 	e.stringList(leanName, "synchronisation skeleton of `"+goName+"` in "+rel, w.out)
 }
 
+// c07Calls lists, in source order, the calls inside goName whose callee text contains `needle`
+// (receiver chain included), with their arguments (function literals as "func").
+func c07Calls(s *source, e *emitter, rel, goName, needle, leanName string) {
+	fd := s.findFunc(rel, goName)
+	if fd == nil {
+		e.errors = append(e.errors, "function "+goName+" not found in "+rel)
+		e.stringList(leanName, "MISSING: "+goName+" in "+rel, []string{"MISSING"})
+		return
+	}
+	var out []string
+	ast.Inspect(fd.Body, func(n ast.Node) bool {
+		if c, ok := n.(*ast.CallExpr); ok {
+			name := s.src(c.Fun)
+			if _, isLit := c.Fun.(*ast.FuncLit); !isLit && strings.Contains(name, needle) {
+				var as []string
+				for _, a := range c.Args {
+					if _, isFn := a.(*ast.FuncLit); isFn {
+						as = append(as, "func")
+					} else {
+						as = append(as, s.src(a))
+					}
+				}
+				out = append(out, name+"("+strings.Join(as, ", ")+")")
+			}
+		}
+		return true
+	})
+	e.stringList(leanName, "calls of `"+needle+"` in `"+goName+"` ("+rel+")", out)
+}
+
 func init() {
 	register("C07", func(s *source, e *emitter) {
 		const sf = "core/syncx/singleflight.go"
@@ -199,5 +229,9 @@ func init() {
 		c07Shape(s, e, lc, "NewLockedCalls", "newLockedCallsShape")
 		c07Shape(s, e, rm, "ResourceManager.GetResource", "getResourceShape")
 		c07Shape(s, e, rm, "NewResourceManager", "newResourceManagerShape")
+		// the users named in the property's anchors: one flight per cache key
+		c07Calls(s, e, "core/stores/cache/cachenode.go", "cacheNode.doTake", "barrier", "cacheNodeBarrierCalls")
+		c07Calls(s, e, "core/collection/cache.go", "Cache.Take", "barrier", "collectionCacheBarrierCalls")
+		c07Calls(s, e, "core/collection/cache.go", "NewCache", "NewSingleFlight", "collectionCacheBarrierCtor")
 	})
 }
